@@ -134,7 +134,16 @@ def work(job):
     core.use_repo()
     family, kind, n, dt_init, i0 = job
     p = core.Part()
-    act, arb, shares = world(kind, n, dt_init)
+    try:
+        act, arb, shares = world(kind, n, dt_init)
+    except core.BrokenCheck:
+        raise
+    except Exception as ex:
+        p.evaluations += 1
+        p.violation("%s|construction raises %s: %s" % (kind, type(ex).__name__, ex), "n=%d default_truth=%r" % (n, dt_init),
+                    "creating and resolving a %s with %d inputs and default truth %r raised %r" % (kind, n, dt_init, ex),
+                    dict(kind=kind, n=n, default_truth_init=dt_init))
+        return p
     dt = arb.default.truth
     if family == "none-default":
         if not same(dt, 1.0):
